@@ -123,7 +123,21 @@ FT == \E s \in Ranks, u \in Ranks, t \in EvRanks, li \in ListSit, la \in ListSit
          pair = Mk([ids |-> li[1], authors |-> la[1], kinds |-> lk[1], since |-> s, until |-> u, tags |-> ts[1]],
                    [id |-> li[2], au |-> la[2], kind |-> lk[2], ts |-> t, tags |-> ts[2]])
 
-Init == FA \/ FB \/ FL \/ FT
+(* FN: many constraints at once - around 32, the number of tag members the JSON form of a filter can carry (a filter made *)
+(* from parts may hold more).  Every constraint has its own letter; the event satisfies all / none / all but one of them.    *)
+Letters == <<"a", "b", "c", "d", "e", "f", "g", "h", "i", "j", "k", "l", "m", "n", "o", "p", "q", "r", "s", "t", "u", "v", "w", "x", "y", "z",
+             "A", "B", "C", "D", "E", "F", "G", "H", "I", "J", "K", "L", "M", "N", "O", "P", "Q", "R", "S", "T", "U", "V", "W", "X", "Y", "Z">>
+FNSizes == {3, 8, 16, 31, 32, 33, 40, 52}
+FN == \E n \in FNSizes, miss \in {0, 1, 2, 3}, b \in Bases :
+         LET cons == [j \in 1..n |-> [name |-> Letters[j], vals |-> IF j % 2 = 0 THEN <<"x">> ELSE <<"xy", "x">>]]
+             sat  == CASE miss = 0 -> 1..n                     \* all satisfied
+                       [] miss = 1 -> {}                       \* none (the event still has tags)
+                       [] miss = 2 -> 1..(n - 1)               \* all but the last
+                       [] OTHER    -> 2..n                     \* all but the first
+             evt  == [j \in 1..n |-> IF j \in sat THEN <<Letters[j], "x">> ELSE <<Letters[j], "xyz">>]
+         IN pair = Mk([b EXCEPT !.tags = cons], [BaseE EXCEPT !.tags = evt])
+
+Init == FA \/ FB \/ FL \/ FT \/ FN
 Next == FALSE /\ UNCHANGED pair
 Spec == Init /\ [][Next]_pair
 
